@@ -79,7 +79,10 @@ const PLACEMENTS = {
   'helper-parameter-after-return': (R) => `function f(act) {\n  const v = $.p(act, 1) + $.p(act, 2);\n  return v + h('U1', act);\n  function h(${R}, a) { const w = $.p(a, 3) + $.p(a, 4); $.u('param', ${R}); return w; }\n}`,
   'var-after-break-in-case-block': (R) => `function f(act) {\n  switch ($.u('k', 1)) {\n    case 1: { const v = $.p(act, 1) + $.p(act, 2); $.u('t', v.length > 0); break; var ${R}; }\n  }\n  return 'x';\n}`,
   'var-after-continue-in-loop-body': (R) => `function f(act) {\n  for (let i = 0; i < 2; i++) { const v = $.p(act, 1) + $.p(act, 2); $.u('t', v.length > 0); continue; var ${R}; }\n  return 'x';\n}`,
-  'function-declaration-after-throw': (R) => `function f(act) {\n  try {\n    const v = $.p(act, 1) + $.p(act, 2);\n    throw new Error(v);\n    function ${R}() { return 'U1'; }\n  } catch (e) { return 'caught'; }\n}`
+  'function-declaration-after-throw': (R) => `function f(act) {\n  try {\n    const v = $.p(act, 1) + $.p(act, 2);\n    throw new Error(v);\n    function ${R}() { return 'U1'; }\n  } catch (e) { return 'caught'; }\n}`,
+  // round s: one operation that needs 300 temporaries, and the reserved name carries an index past 255
+  'wide-operation-high-index-variable': (R) => { const H = R.replace(/\d+$/, '280'); const args = Array.from({ length: 299 }, (_, k) => `$.p(act, ${k + 2})`).join(', '); return `function f(act) {\n  let ${H} = 'U1';\n  const v = $.p(act, 1).concat(${args});\n  $.u('read', ${H});\n  return v;\n}` },
+  'wide-operation-high-index-free-variable': (R) => { const H = R.replace(/\d+$/, '257'); const args = Array.from({ length: 299 }, (_, k) => `$.p(act, ${k + 2})`).join(', '); return `let ${H} = 'U1';\nfunction f(act) {\n  const v = $.p(act, 1).concat(${args});\n  $.u('read', ${H});\n  ${H} = 'U2';\n  return v;\n}\nconst rd = () => ${H};\nconst after = () => $.u('outer', rd());`}
 }
 
 function planH5 (rng, prefix0, seq) {
